@@ -273,8 +273,9 @@ def check(prop, tier, base, a):
     if dead:
         print("HARNESS-ERROR %s" % dead)
         status = 2
+    harness_errors = bool(total["harness"])
     if total["harness"]:
-        status = 2
+        # (like the disturbed-run gate below: decides only when no violation is confirmed)
         for idx, msg in total["harness"][:5]:
             print("HARNESS-ERROR run index %d: %s" % (idx, msg))
         print("HARNESS-ERROR %d runs had harness errors" % len(total["harness"]))
@@ -315,9 +316,11 @@ def check(prop, tier, base, a):
     # ---- disturbed runs
     ndist = sum(total["disturbed"].values())
     known = load_known()
-    if total["n"] and ndist > 0.05 * total["n"]:
+    too_disturbed = bool(total["n"] and ndist > 0.05 * total["n"])
+    if too_disturbed:
+        # decides only when no violation is confirmed below: on a tree that breaks the scaffolding of many runs the judged runs
+        # can still show a real, replayable violation - that is reported; without one, a batch this disturbed proves nothing
         print("HARNESS-ERROR %d of %d runs disturbed: %s" % (ndist, total["n"], dict(total["disturbed"])))
-        status = 2
 
     # ---- violations
     kn = {k["signature"]: k for k in known if k.get("status") == "known" and k["property"] == prop}
@@ -398,11 +401,16 @@ def check(prop, tier, base, a):
             replay_paths.append(path)
             if status == 0:
                 status = 1
+        if status == 0 and (too_disturbed or harness_errors):
+            status = 2
         if unconfirmed and status == 0:
             # violations were seen, but none of them replays in a fresh interpreter: nothing this batch says can be believed.
             # (When at least one violation does replay exactly, that one is reported - exit 1 - and the others are listed above:
             #  typically the changed code keeps state in the process across runs, which a fresh interpreter does not have.)
             status = 2
+
+    if (too_disturbed or harness_errors) and status == 0:
+        status = 2
 
     # ---- starved probes (thorough only)
     starved = [p for p in world.PROBES if not total["probes"].get(p)]
